@@ -32,6 +32,10 @@ pub fn differential_opts(
     (class, nt, bad, o)
 }
 
+pub fn differential_opts_layout(prog: &Prog, stdin: &[u8], tag: &str, opts: &RunOpts, layout: &vcore::gprint::Layout) -> (String, bool, Option<(String, String, String)>, vcore::Outcome) {
+    differential_inner(prog, stdin, tag, opts, layout)
+}
+
 /// The same under another layout of the printed text (the reference works on the AST, the error rows
 /// go through the printer's position map).
 pub fn differential_layout(prog: &Prog, stdin: &[u8], tag: &str, layout: &vcore::gprint::Layout) -> (String, bool, Option<(String, String, String)>) {
@@ -96,7 +100,8 @@ pub fn worker(case: &Value) -> Value {
             let last = case["last"].as_bool().unwrap_or(false);
             let in_sub = case["sub"].as_bool().unwrap_or(false);
             let one_line = case["one_line"].as_bool().unwrap_or(false);
-            let layout = vcore::gprint::Layout { one_line_blocks: one_line, ..Default::default() };
+            let with_let = case["let"].as_bool().unwrap_or(false);
+            let layout = vcore::gprint::Layout { one_line_blocks: one_line, let_and_call: with_let, ..Default::default() };
             let all = forests(nodes);
             for f in all.iter().skip(lo).take(hi - lo) {
                 let prog = if in_sub { control_program_in_sub(f, last) } else { control_program(f, last) };
@@ -104,7 +109,7 @@ pub fn worker(case: &Value) -> Value {
                     *hist.entry("not-generated:no construct can be written on one line".into()).or_insert(0) += 1;
                     continue;
                 }
-                let (class, nt, bad) = differential_layout(&prog, b"", if one_line { "A1" } else { "A" }, &layout);
+                let (class, nt, bad) = differential_layout(&prog, b"", if one_line { "A1" } else if with_let { "A2" } else { "A" }, &layout);
                 n += 1;
                 *hist.entry(class).or_insert(0) += 1;
                 if nt {
@@ -337,6 +342,18 @@ pub fn drive(tier: &str) -> i32 {
             plan.push(json!({"axis": "A", "nodes": nodes, "children_in_last_body": last, "inside_sub": in_sub, "programs": total}));
         }
     }
+    // axis A again with LET before every assignment and CALL before every SUB call
+    for nodes in 1..=2 {
+        let total = forests(nodes).len();
+        for in_sub in [false, true] {
+            let mut lo = 0;
+            while lo < total {
+                cases.push(json!({"axis": "A", "nodes": nodes, "lo": lo, "hi": (lo + 60).min(total), "last": false, "sub": in_sub, "let": true}));
+                lo += 60;
+            }
+            plan.push(json!({"axis": "A", "layout": "LET before assignments, CALL before SUB calls", "nodes": nodes, "inside_sub": in_sub, "programs": total}));
+        }
+    }
     // axis A again with every loop / SELECT CASE that holds no block IF written on ONE source line
     for nodes in 1..=(if quick { 2 } else { 3 }) {
         let total = forests(nodes).len();
@@ -388,7 +405,7 @@ pub fn drive(tier: &str) -> i32 {
         run.capped = true;
     }
     let mut ev = Evidence::new("exploration");
-    ev.set("rule", "axis B: every binary operator x 5x5 operand types x a 4-value menu per type x 9 contexts (PRINT, assignment to each of the 5 types, IF condition, SELECT subject, FOR bound), operands as literals, as variables and (where the value is stored or bounds a loop) as variables with the whole expression in parentheses, both unary operators, depth-2 shapes in the thorough tier; ill-typed combinations must be rejected with Type mismatch; snippets that end normally are batched into one program (bisected on disagreement), snippets that end in an error run alone. Axis C: every sequence of up to n DATA items x every admissible assignment of variable types x placements of the DATA lines, plus reading past the end. Axis T: 9 condition values (2, 1, -1, 0, -2, .5, 0.0, 32767, 100000; literal and variable) in IF, ELSEIF, single-line IF, IF NOT, WHILE and the four DO forms: true is whatever is not zero. Axis C2: three DATA statements, the middle one inside each of 22 block positions (every branch kind taken and not taken, every loop kind with two, one or no rounds, nested blocks), READ before or after them: the values come in textual order whatever was executed. axis A: every ordered forest of n construct nodes (n <= 2, thorough 3, also in the layout that writes every loop / SELECT CASE without a block IF inside on one source line, nested ones sharing their row) over 15 construct kinds (IF, IF/ELSE, IF/ELSEIF/ELSE, single-line IF, two SELECT forms, four FOR forms, WHILE, four DO forms), children placed in the first or in the last body, at module level or inside a SUB; every body carries a trace statement; the program is printed, run on the real pipeline and on the reference semantics, and stdout / end state (error code and row) are compared. Non-trivial = every statement of the program was executed at least once.");
+    ev.set("rule", "axis B: every binary operator x 5x5 operand types x a 4-value menu per type x 9 contexts (PRINT, assignment to each of the 5 types, IF condition, SELECT subject, FOR bound), operands as literals, as variables and (where the value is stored or bounds a loop) as variables with the whole expression in parentheses, both unary operators, depth-2 shapes in the thorough tier; ill-typed combinations must be rejected with Type mismatch; snippets that end normally are batched into one program (bisected on disagreement), snippets that end in an error run alone. Axis C: every sequence of up to n DATA items x every admissible assignment of variable types x placements of the DATA lines, plus reading past the end. Axis T: 9 condition values (2, 1, -1, 0, -2, .5, 0.0, 32767, 100000; literal and variable) in IF, ELSEIF, single-line IF, IF NOT, WHILE and the four DO forms: true is whatever is not zero. Axis C2: three DATA statements, the middle one inside each of 22 block positions (every branch kind taken and not taken, every loop kind with two, one or no rounds, nested blocks), READ before or after them: the values come in textual order whatever was executed. axis A: every ordered forest of n construct nodes (n <= 2, thorough 3, also in the layout that writes every loop / SELECT CASE without a block IF inside on one source line, nested ones sharing their row, and (n <= 2) with LET before every assignment and CALL before every SUB call) over 15 construct kinds (IF, IF/ELSE, IF/ELSEIF/ELSE, single-line IF, two SELECT forms, four FOR forms, WHILE, four DO forms), children placed in the first or in the last body, at module level or inside a SUB; every body carries a trace statement; the program is printed, run on the real pipeline and on the reference semantics, and stdout / end state (error code and row) are compared. Non-trivial = every statement of the program was executed at least once.");
     ev.set("exhaustive", !run.capped);
     ev.set("plan", json!(plan));
     ev.assume("reference semantics hand-written from the language definition (DESIGN.md appendix B), restricted to the exact numeric domain; cases the reference does not decide are counted as undecided and not judged");
